@@ -64,6 +64,32 @@ theorem inv_run {s : State K} (hi : Inv G s) (ops : List (Op K)) : Inv G (run G 
 theorem reachable_inv (ops : List (Op K)) : Inv G (run G ({} : State K) ops) :=
   inv_run (inv_empty G) ops
 
+/-! ### `data` is a live view of the padded array -/
+
+theorem dataLive_after {s : State K} (h : DataLive s) (op : Op K) : DataLive (after G s op) := by
+  unfold after; split
+  · rename_i s' e; exact dataLive_step G h e
+  · exact h
+
+/-- **clause (a), all histories** -/
+theorem dataLive_run {s : State K} (h : DataLive s) (ops : List (Op K)) :
+    DataLive (run G s ops) := by
+  induction ops generalizing s with
+  | nil => exact h
+  | cons op ops ih => rw [run_cons]; exact ih (dataLive_after h op)
+
+/-- **data_is_live_view**: after every history of operations, for every object, the array that
+`obj.data` returns (`_data_valid`) is carved from the array the object currently looks at
+(`_data_full`) - also after re-linking by a collection, deep copies and unpickling.  Together with
+`validSel` (which cells of that array are selected) this is "`data` is a live view of the padded
+array": a write through `data` is a `writeSel` on `objs[i].view`. -/
+theorem data_is_live_view (ops : List (Op K)) {i : Nat} {o : Obj}
+    (ho : (run G ({} : State K) ops).objs[i]? = some o) :
+    (run G ({} : State K) ops).dviews[i]? = some o.view := by
+  have h : DataLive (run G ({} : State K) ops) := dataLive_run dataLive_empty ops
+  unfold DataLive at h
+  rw [h, List.getElem?_map, ho]; rfl
+
 /-! ### frame -/
 
 /-- **frame**: an operation changes no cell of an existing buffer outside its footprint
@@ -94,48 +120,69 @@ theorem frame_handle {s s' : State K} {op : Op K} (hwf : WF s) (h : step G s op 
   exact Store.readView_congr _ _ _ hsz (e.size_eq _ hb)
     (fun i h1 h2 => e.frame _ i hb (hd i h1 h2))
 
-/-- the handle an operation writes through -/
-def writesThrough : Op K → Option Nat
-  | .writeData h _ => some h
-  | .writeFull h _ => some h
-  | .writeCell h _ _ => some h
-  | .setGhosts h _ => some h
-  | .inplace _ a _ => some a
-  | _ => none
+/-- the handles an operation writes through -/
+def writesThrough : Op K → List Nat
+  | .writeData h _ => [h]
+  | .writeFull h _ => [h]
+  | .writeCell h _ _ => [h]
+  | .setGhosts h _ => [h]
+  | .inplace _ a _ => [a]
+  | .applyOperator h _ _ out _ => h :: out.toList
+  | .applyFn _ out _ => out.toList
+  | _ => []
 
 theorem foot_mem {s : State K} {op : Op K} {b i : Nat} (hf : foot G s op b i) :
-    ∃ h o, writesThrough op = some h ∧ s.objs[h]? = some o ∧ o.view.Mem b i := by
+    ∃ h o, h ∈ writesThrough op ∧ s.objs[h]? = some o ∧ o.view.Mem b i := by
   cases op <;> simp only [foot] at hf
-  case writeData h _ => obtain ⟨o, h1, h2⟩ := hf; exact ⟨h, o, rfl, h1, h2.1⟩
-  case writeFull h _ => obtain ⟨o, h1, h2⟩ := hf; exact ⟨h, o, rfl, h1, h2⟩
-  case writeCell h _ _ => obtain ⟨o, h1, h2, _⟩ := hf; exact ⟨h, o, rfl, h1, h2⟩
-  case setGhosts h _ => obtain ⟨o, h1, h2, _⟩ := hf; exact ⟨h, o, rfl, h1, h2⟩
-  case inplace _ a _ => obtain ⟨o, h1, h2⟩ := hf; exact ⟨a, o, rfl, h1, h2.1⟩
+  case writeData h _ => obtain ⟨o, h1, h2⟩ := hf; exact ⟨h, o, by simp [writesThrough], h1, h2.1⟩
+  case writeFull h _ => obtain ⟨o, h1, h2⟩ := hf; exact ⟨h, o, by simp [writesThrough], h1, h2⟩
+  case writeCell h _ _ =>
+    obtain ⟨o, h1, h2, _⟩ := hf; exact ⟨h, o, by simp [writesThrough], h1, h2⟩
+  case setGhosts h _ =>
+    obtain ⟨o, h1, h2, _⟩ := hf; exact ⟨h, o, by simp [writesThrough], h1, h2⟩
+  case inplace _ a _ => obtain ⟨o, h1, h2⟩ := hf; exact ⟨a, o, by simp [writesThrough], h1, h2.1⟩
+  case applyOperator h _ _ out _ =>
+    rcases hf with ⟨o, h1, h2, _⟩ | ⟨j, oj, rfl, h1, h2⟩
+    · exact ⟨h, o, by simp [writesThrough], h1, h2⟩
+    · exact ⟨j, oj, by simp [writesThrough], h1, h2.1⟩
+  case applyFn _ out _ =>
+    obtain ⟨j, oj, rfl, h1, h2⟩ := hf
+    exact ⟨j, oj, by simp [writesThrough], h1, h2.1⟩
 
-theorem not_moved_of_writes {op : Op K} {h : Nat} (hw : writesThrough op = some h) (i : Nat) :
+/-- operations that write through a handle re-link nothing -/
+theorem not_moved_of_writes {op : Op K} {h : Nat} (hw : h ∈ writesThrough op) (i : Nat) :
     ¬ moved op i := by
   cases op <;> simp [writesThrough] at hw <;> simp [moved]
 
-/-- **frame, handle form**: a write through handle `h` leaves what is read through every
-handle that shares no cell with `h` unchanged - in particular every handle on another buffer. -/
+/-- **frame, handle form**: an operation leaves what is read through a handle `h'` unchanged if
+`h'` shares no cell with any of the handles the operation writes through (`writesThrough`: the
+target of a data / marker / ghost-cell / in-place write, the operand and `out` of
+`apply_operator`, `out` of `apply`; no handle at all for every other operation) and `h'` is not
+re-linked (only `FieldCollection(fields, copy_fields=False)` re-links, and only its `fields`). -/
 theorem frame_disjoint {s s' : State K} {op : Op K} (hwf : WF s) (h : step G s op = .ok s')
-    {hw h' : Nat} {ow o : Obj} (hop : writesThrough op = some hw) (how : s.objs[hw]? = some ow)
-    (ho : s.objs[h']? = some o) (hdis : o.view.overlaps ow.view = false) :
+    {h' : Nat} {o : Obj} (ho : s.objs[h']? = some o) (hm : ¬ moved op h')
+    (hdis : ∀ (hw : Nat) (ow : Obj), hw ∈ writesThrough op → s.objs[hw]? = some ow →
+      o.view.overlaps ow.view = false) :
     s'.denote h' = s.denote h' := by
-  refine frame_handle hwf h ho (not_moved_of_writes hop h') ?_
+  refine frame_handle hwf h ho hm ?_
   intro i h1 h2 hf
   obtain ⟨h0, o0, e0, g0, m0⟩ := foot_mem hf
-  rw [hop] at e0; cases e0
-  rw [how] at g0; cases g0
-  have : o.view.overlaps ow.view = true :=
+  have : o.view.overlaps o0.view = true :=
     (View.overlaps_iff _ _).mpr ⟨o.view.buf, i, ⟨rfl, h1, h2⟩, m0⟩
-  rw [hdis] at this; cases this
+  rw [hdis h0 o0 e0 g0] at this; cases this
 
+/-- a write through handle `hw` leaves every handle on another buffer alone -/
 theorem frame_other_buffer {s s' : State K} {op : Op K} (hwf : WF s) (h : step G s op = .ok s')
-    {hw h' : Nat} {ow o : Obj} (hop : writesThrough op = some hw) (how : s.objs[hw]? = some ow)
+    {hw h' : Nat} {ow o : Obj} (hop : writesThrough op = [hw]) (how : s.objs[hw]? = some ow)
     (ho : s.objs[h']? = some o) (hb : o.view.buf ≠ ow.view.buf) :
-    s'.denote h' = s.denote h' :=
-  frame_disjoint hwf h hop how ho (View.overlaps_false_of_buf_ne hb)
+    s'.denote h' = s.denote h' := by
+  refine frame_disjoint hwf h ho (not_moved_of_writes (h := hw) (by simp [hop]) h') ?_
+  intro hw' ow' hmem how'
+  rw [hop] at hmem
+  simp only [List.mem_singleton] at hmem
+  subst hmem
+  rw [how] at how'; cases how'
+  exact View.overlaps_false_of_buf_ne hb
 
 /-! ### a write is seen through every alias -/
 
@@ -340,6 +387,28 @@ theorem collection_layout_slots {s : State K} (hi : Inv G s) {c : Nat} (hl : Lin
 /-- **component views**: `vector[c]` / `tensor[i, j]` (`c = i*dim + j`, row-major) returns a new
 handle that looks at block `c` of the padded array of the field: `n` cells starting `c * n`
 cells into the field's view; the field itself is untouched. -/
+theorem componentAt_view {s s' : State K} (hi : Inv G s) {h c : Nat} {o : Obj}
+    (ho : s.objs[h]? = some o) (hs : componentAt s o c = .ok s') :
+    ∃ gr : Grid, G[o.grid]? = some gr ∧ c < o.ncomp ∧
+      o.view.len = o.ncomp * gr.mask.length ∧ s'.objs[h]? = some o ∧ s'.store = s.store ∧
+      ∃ oc : Obj, s'.objs[s.objs.length]? = some oc ∧ oc.cls = .scalar ∧
+        oc.view = ⟨o.view.buf, o.view.off + c * gr.mask.length, gr.mask.length⟩ := by
+  unfold componentAt at hs
+  split at hs
+  · rename_i hcond
+    cases hs
+    simp only [Bool.and_eq_true, decide_eq_true_eq, Bool.or_eq_true, beq_iff_eq] at hcond
+    rcases hi.shaped h o ho with hr | ⟨gr, hgr, hlen⟩
+    · rcases hcond.1 with e | e <;> rw [e] at hr <;> cases hr
+    have hn : o.view.len / o.ncomp = gr.mask.length := by
+      rw [hlen, Nat.mul_div_cancel_left _ (by omega : 0 < o.ncomp)]
+    refine ⟨gr, hgr, hcond.2, hlen, ?_, rfl, compObj o c, ?_, rfl, ?_⟩
+    · simp only [State.pushObj]
+      rw [List.getElem?_append_left (lt_length_of_getElem? ho)]; exact ho
+    · simp [State.pushObj]
+    · simp only [compObj, hn]
+  · cases hs
+
 theorem component_view {s s' : State K} (hi : Inv G s) {h c : Nat}
     (hs : step G s (.component h c) = .ok s') :
     ∃ (o : Obj) (gr : Grid), s.objs[h]? = some o ∧ G[o.grid]? = some gr ∧ c < o.ncomp ∧
@@ -350,19 +419,36 @@ theorem component_view {s s' : State K} (hi : Inv G s) {h c : Nat}
   split at hs
   · cases hs
   rename_i o ho
+  obtain ⟨gr, h1, h2⟩ := componentAt_view hi (getObj_ok ho) hs
+  exact ⟨o, gr, getObj_ok ho, h1, h2⟩
+
+/-- **tensor components are row-major**: `tensor[i, j]` on a grid of dimension `dim` is the
+component view on block `i * dim + j` - the same operation as `.component h (i * dim + j)`; the new
+handle looks at the `n` cells that start `(i * dim + j) * n` cells into the tensor's padded array
+(`n` = cells of one padded grid), and the tensor has `dim * dim` such blocks. -/
+theorem tensor_component_view {s s' : State K} (hi : Inv G s) {h i j : Nat}
+    (hs : step G s (.tcomponent h i j) = .ok s') :
+    ∃ (o : Obj) (gr : Grid), s.objs[h]? = some o ∧ o.cls = .tensor ∧ G[o.grid]? = some gr ∧
+      i < gr.dim ∧ j < gr.dim ∧
+      step G s (.component h (i * gr.dim + j)) = .ok s' ∧
+      o.view.len = o.ncomp * gr.mask.length ∧ i * gr.dim + j < o.ncomp ∧
+      ∃ oc : Obj, s'.objs[s.objs.length]? = some oc ∧ oc.cls = .scalar ∧
+        oc.view = ⟨o.view.buf, o.view.off + (i * gr.dim + j) * gr.mask.length, gr.mask.length⟩ := by
+  simp only [step] at hs
+  split at hs
+  · cases hs
+  rename_i o ho
+  split at hs
+  · cases hs
+  rename_i gr hgr
   split at hs
   · rename_i hcond
-    cases hs
-    simp only [Bool.and_eq_true, decide_eq_true_eq, Bool.or_eq_true, beq_iff_eq] at hcond
-    rcases hi.shaped h o (getObj_ok ho) with hr | ⟨gr, hgr, hlen⟩
-    · rcases hcond.1 with e | e <;> rw [e] at hr <;> cases hr
-    have hn : o.view.len / o.ncomp = gr.mask.length := by
-      rw [hlen, Nat.mul_div_cancel_left _ (by omega : 0 < o.ncomp)]
-    refine ⟨o, gr, getObj_ok ho, hgr, hcond.2, hlen, ?_, rfl, compObj o c, ?_, rfl, ?_⟩
-    · simp only [State.pushObj]
-      rw [List.getElem?_append_left (lt_length_of_getElem? (getObj_ok ho))]; exact getObj_ok ho
-    · simp [State.pushObj]
-    · simp only [compObj, hn]
+    simp only [Bool.and_eq_true, decide_eq_true_eq, beq_iff_eq] at hcond
+    obtain ⟨gr', h1, h2, h3, _, _, h6⟩ := componentAt_view hi (getObj_ok ho) hs
+    rw [hgr] at h1; cases h1
+    refine ⟨o, gr, getObj_ok ho, hcond.1.1, hgr, hcond.1.2, hcond.2, ?_, h3, h2, h6⟩
+    simp only [step, ho]
+    exact hs
   · cases hs
 
 /-- a marker written through a component view is read through the field at the component's
@@ -459,14 +545,20 @@ theorem copy_is_fresh {s s' : State K} (hwf : WF s) {h : Nat} {dt : Option DType
 force a copy, collection.py:92-95) -/
 def copying : Op K → Prop
   | .component _ _ => False
+  | .tcomponent _ _ _ => False
   | .mkColl hs cp _ => cp = true ∨ ¬ hs.Nodup
   | _ => True
 
 theorem copying_spec {op : Op K} (hc : copying op) : ¬ subviewing op ∧ ∀ i, ¬ moved op i := by
-  cases op <;> simp_all [copying, subviewing, moved]
-  rcases hc with h | h
-  · simp [h]
-  · intro _ _ hnd; exact absurd hnd h
+  cases op
+  case mkColl hs cp dt =>
+    refine ⟨by simp [subviewing], ?_⟩
+    intro i hm
+    simp only [moved] at hm
+    rcases hc with h | h
+    · rw [h] at hm; exact absurd hm.1 (by simp)
+    · exact h hm.2.1
+  all_goals simp_all [copying, subviewing, moved]
 
 /-- results of copying operations do not share memory with anything that existed before -/
 theorem fresh_results {s s' : State K} {op : Op K} (hwf : WF s) (hs : step G s op = .ok s')
@@ -539,7 +631,8 @@ theorem copy_never_aliases {s s' : State K} (hwf : WF s) {h : Nat} {dt : Option 
 
 /-- **slice_append_arith_operator_results_fresh**: the same for collection slices, `append`,
 `FieldCollection(..., copy_fields=True)`, negation and binary arithmetic, freshly constructed
-fields (which is how operator results, `to_scalar`, ... are built), stored frames, fields
+fields, the fields created by `apply_operator` (`applyOperator`), by `to_scalar` / `real` /
+`imag` / `conjugate` (`derive`) and by `apply` / `transpose` (`applyFn`), stored frames, fields
 read back from a storage, deep copies and unpickled objects, and for the forced-copy path of the
 constructor (`copy_fields=False` but some of the fields are identical). -/
 theorem slice_append_arith_operator_results_fresh {s s' : State K} {op : Op K} (hwf : WF s)
@@ -547,12 +640,15 @@ theorem slice_append_arith_operator_results_fresh {s s' : State K} {op : Op K} (
       (∃ hs dt, op = .mkColl hs true dt) ∨ (∃ h, op = .neg h) ∨ (∃ o a b, op = .binop o a b) ∨
       (∃ c g dt x i, op = .mkField c g dt x i) ∨ (∃ h d, op = .storeFrame h d) ∨
       (∃ t f, op = .loadFrame t f) ∨ (∃ h, op = .deepcopy h) ∨
-      (∃ hs dt, op = .mkColl hs false dt ∧ ¬ hs.Nodup))
+      (∃ hs dt, op = .mkColl hs false dt ∧ ¬ hs.Nodup) ∨
+      (∃ h g c o v, op = .applyOperator h g c o v) ∨ (∃ h c x v, op = .derive h c x v) ∨
+      (∃ h o v, op = .applyFn h o v))
     (hs : step G s op = .ok s') {i j : Nat} (hi : s.objs.length ≤ i) (hi' : i < s'.objs.length)
     (hj : j < s.objs.length) (ops : List (Op K)) : aliases (run G s' ops) i j = false := by
   have hc : copying op := by
     rcases hop with ⟨_, _, rfl⟩ | ⟨_, _, rfl⟩ | ⟨_, _, rfl⟩ | ⟨_, rfl⟩ | ⟨_, _, _, rfl⟩ |
-      ⟨_, _, _, _, _, rfl⟩ | ⟨_, _, rfl⟩ | ⟨_, _, rfl⟩ | ⟨_, rfl⟩ | ⟨_, _, rfl, hd⟩
+      ⟨_, _, _, _, _, rfl⟩ | ⟨_, _, rfl⟩ | ⟨_, _, rfl⟩ | ⟨_, rfl⟩ | ⟨_, _, rfl, hd⟩ |
+      ⟨_, _, _, _, _, rfl⟩ | ⟨_, _, _, _, rfl⟩ | ⟨_, _, _, rfl⟩
     all_goals first | exact Or.inr hd | simp [copying]
   have hl := (step_spec G hwf hs).1.len_le
   exact disjoint_forever (wf_step hwf hs) (by omega) hi' (by omega)
@@ -607,6 +703,27 @@ theorem inplace_touches_only_valid_cells {s s' : State K} (hwf : WF s) {bop : Bi
     obtain ⟨o', g1, g2⟩ := hf
     rw [hoa] at g1; cases g1
     exact hd i ⟨rfl, h1, h2⟩ g2
+
+/-- **apply_operator_footprint**: `h.apply_operator(name, bc, out=out)` re-links nothing and the
+only cells of existing memory it may change are ghost cells of the operand `h` (the boundary
+condition) and valid cells of `out`: in particular the valid cells of the operand keep their
+content unless `out` overlaps them. -/
+theorem apply_operator_footprint {s s' : State K} (hwf : WF s) {h : Nat}
+    {ghosts : List (Option K)} {c : Cls} {out : Option Nat} {vals : List K}
+    (hs : step G s (.applyOperator h ghosts c out vals) = .ok s') :
+    (∀ (i : Nat) (x : Obj), s.objs[i]? = some x → s'.objs[i]? = some x) ∧
+    (∀ b i, b < s.store.next →
+      (∀ o : Obj, s.objs[h]? = some o →
+        ¬ (o.view.Mem b i ∧ validSel G o (i - o.view.off) = false)) →
+      (∀ (j : Nat) (oj : Obj), out = some j → s.objs[j]? = some oj → ¬ oj.validCell G b i) →
+      s'.store.read b i = s.store.read b i) := by
+  refine ⟨fun i x hx => views_stable hwf hs hx (by simp [moved]), ?_⟩
+  intro b i hb h1 h2
+  refine frame hwf hs b i hb ?_
+  simp only [foot]
+  rintro (⟨o, g1, g2, g3⟩ | ⟨j, oj, g1, g2, g3⟩)
+  · exact h1 o g1 ⟨g2, g3⟩
+  · exact h2 j oj g1 g2 g3
 
 /-! ### values of copies -/
 
@@ -737,5 +854,31 @@ example : aliases (run exGrid {} (exComp.take 2)) 0 1 = true ∧
     aliases (run exGrid {} (exComp.take 2 ++ [.mkColl [0] false none])) 0 1 = false ∧
     (run exGrid {} (exComp.take 2 ++ [.mkColl [0] false none, .writeCell 1 1 5])).denote 0 =
       [none, some 1, some 2, none] := by decide +kernel
+
+/-- `DataLive` is a real constraint: the state the code produced before /repo 129e75d
+(`__setstate__` restored `__dict__` only, so `_data_valid` of a deep copy was an array of its own)
+is a state of the model - and it is not `DataLive` -/
+example : ¬ DataLive ({ store := ⟨[⟨[some 1, some 2], .f64⟩, ⟨[some 1, some 2], .f64⟩]⟩
+                        objs := [{ cls := .scalar, grid := 0, ncomp := 1, view := ⟨0, 0, 2⟩ }]
+                        dviews := [⟨1, 0, 2⟩] } : State Int) := by
+  unfold DataLive; decide
+example : DataLive (run exGrid {} (exOps ++ [.deepcopy 2])) ∧
+    (run exGrid {} (exOps ++ [.deepcopy 2])).dviews.length = 11 := by
+  unfold DataLive; decide +kernel
+/-- `tensor[1, 0]` on a 2-d grid (one cell, padded 3 x 3 = 9 cells per component) is component 2:
+handle 1 looks at cells 18..26 of the tensor's array; an operator result (handle 2, written to
+valid cells only) and `to_scalar` (handle 3) are fresh -/
+def exGrid2 : List Grid := [⟨[false, false, false, false, true, false, false, false, false], 2⟩]
+def exTensor : List (Op Int) :=
+  [ .mkField .tensor 0 none false .zeros,
+    .tcomponent 0 1 0,
+    .applyOperator 0 [some 7] .vector none (List.replicate 18 3),
+    .derive 0 .scalar false (List.replicate 9 4) ]
+example : ((run exGrid2 {} exTensor).objs.map (·.view)) =
+    [⟨0, 0, 36⟩, ⟨0, 18, 9⟩, ⟨1, 0, 18⟩, ⟨2, 0, 9⟩] ∧
+    (run exGrid2 {} exTensor).denote 2 =
+      [none, none, none, none, some 3, none, none, none, none,
+       none, none, none, none, some 3, none, none, none, none] ∧
+    ((run exGrid2 {} exTensor).denote 0).take 2 = [some 7, some 0] := by decide +kernel
 
 end PdeVerif.Heap
